@@ -2,7 +2,7 @@
 (* Exhaustive exploration of CasConc: every interleaving of small concurrent programs over all      *)
 (* initial maps.  Programs and the initial map are chosen in Init, so one run covers all of them.   *)
 EXTENDS CasConc, Json
-CONSTANTS NT, OpsPerThread, ProgKeys, ProgContents, WalN, WithReads, WithCleanup, WithCkpt
+CONSTANTS NT, OpsPerThread, ProgKeys, ProgContents, WalN, WithReads, WithCleanup, WithCkpt, WithGuard
 VARIABLES s, hist   \* hist: the schedule (thread ids) so far - hidden by View, printed by the generator config
 
 OpMenu == {[op |-> "put", k |-> k, c |-> c] : k \in ProgKeys, c \in ProgContents}
@@ -12,7 +12,10 @@ OpMenu == {[op |-> "put", k |-> k, c |-> c] : k \in ProgKeys, c \in ProgContents
      \cup (IF WithCkpt THEN {[op |-> "ckpt"]} ELSE {})
      \cup (IF WithCleanup THEN {[op |-> "cleanup"]} ELSE {})
 
-Progs == [1..NT -> [1..OpsPerThread -> OpMenu]]
+\* WithGuard: thread 1 keeps an index read guard alive across a read of its own (finding F6)
+GuardProg == <<[op |-> "guard"], [op |-> "get", k |-> 1], [op |-> "unguard"]>>
+Progs == IF WithGuard THEN {[t \in 1..NT |-> IF t = 1 THEN GuardProg ELSE pr[t]] : pr \in [1..NT -> [1..OpsPerThread -> OpMenu]]}
+         ELSE [1..NT -> [1..OpsPerThread -> OpMenu]]
 InitMaps == [Keys -> ProgContents \cup {Absent}]
 
 \* symmetry breaking: thread programs in non-decreasing order is not expressible cheaply; all are explored
@@ -23,7 +26,8 @@ Init == \E pr \in Progs, im \in InitMaps :
                            IF WithCleanup THEN <<"C">> ELSE <<>>, pr)
 
 Step(t) == Enabled(s, t) /\ s' = StepT(s, t) /\ hist' = [hist EXCEPT !.sched = Append(@, t)]
-Next == (\E t \in Threads(s) : Step(t)) \/ (AllDone(s) /\ UNCHANGED <<s, hist>>)
+QueueW(t) == CanQueue(s, t) /\ s' = Queue(s, t) /\ hist' = [hist EXCEPT !.sched = Append(@, 0 - t)]
+Next == (\E t \in Threads(s) : Step(t) \/ QueueW(t)) \/ (AllDone(s) /\ UNCHANGED <<s, hist>>)
 Spec == Init /\ [][Next]_<<s, hist>>
 FairSpec == Spec /\ \A t \in 1..NT : WF_<<s, hist>>(Step(t))
 
